@@ -812,6 +812,11 @@ where
             break;
         }
         if let Some((fid, t)) = locked.pop_front() {
+            // wait_all() may have given up our own token (it always does at
+            // the top level). Get one back before it is released or used to
+            // start a job below. No lock is held and no job of ours is
+            // running here, so waiting for a token cannot deadlock.
+            server.ensure_token_or_cheat(t.as_str(), &mut cheat).await?;
             // TODO(soon): check_sane
             let mut lock = ps_ref.borrow().new_lock(fid);
             let mut backoff = Duration::from_millis(100);
